@@ -292,7 +292,9 @@ let run_line (line : String.t) : unit =
              let bufs = next t in
              let m = parse_member t in
              let size = size_of (m_calc m) in
-             print_kvs id (run_build m (parse_bufs bufs size) @ spec_build2 m)
+             let bl = parse_bufs bufs size in
+             let fill = (match bl with (_, f) :: _ -> f | [] -> N0) in
+             print_kvs id (run_build m bl @ run_build_unchecked m (nat_of_int 8) fill @ spec_build2 m)
          | "chunk" ->
              let bufs = next t in
              let c = parse_chunk t in
@@ -307,6 +309,12 @@ let run_line (line : String.t) : unit =
              (* the spec side of a history is the spec of its declarative final configuration *)
              let h = parse_hist t in
              print_kvs id (run_hist h @ spec_build2 (final_config h))
+         | "fci" ->
+             (* a bare FCI builder used as a writer *)
+             let bufs = next t in
+             let f = parse_fci t in
+             let size = size_of (fci_calc f) in
+             print_kvs id (run_build_fci f (parse_bufs bufs size))
          | "helper" ->
              (* direct calls of the public writer helpers on a caller-supplied buffer *)
              let one_buf t = (match parse_bufs (next t) 0 with [b] -> b | _ -> failwith "helper: one buffer") in
@@ -314,6 +322,7 @@ let run_line (line : String.t) : unit =
               | "pad" -> let p = num t in let b = one_buf t in print_kvs id (run_helper_pad p b)
               | "hdr" -> let pt = num t in let p = num t in let c = num t in let b = one_buf t in
                          print_kvs id (run_helper_hdr pt p c b)
+              | "phdr" -> let d = hex t in print_kvs id (run_helper_phdr d)
               | "chk" -> let p = num t in print_kvs id (run_helper_chk p)
               | _ -> failwith "bad helper")
          | _ -> Printf.printf "%s\tBADCASE=unknown-kind\n" id)
